@@ -1,5 +1,271 @@
-"""insert_features obligations - filled in below."""
+"""insert_features (the ingester half of the runner) polled to completion on its MIR (C03, C04, C08).
+
+Parser stream: <= 3 items, each Ok(feature) or Err (symbolic), each ready after 0..1 extra polls.
+Features::insert is replaced by a recorder (its own kernels: C05/C18 checks), count_scenarios / count_steps
+are uninterpreted per feature.  Oracle: errors forwarded in order, exactly one ParsingFinished afterwards whose
+counters equal what was consumed, every consumed feature inserted in order, Features::finish() called, and under
+fail-fast nothing is consumed after the first error.
+"""
+import itertools
+
+import z3
+
+from checks import common, events
+from checks.common import Obligation
+from checks.fail_on_skipped import poll_to_completion
+from mirsmt.values import Cell, Lazy, Adt, Ref, Obj, UNIT, bv
+from mirsmt.interp import Inconclusive, PathEnd
 
 
 def obligations(chk, prop):
-    return []
+    prog = chk.prog
+    ix = events.CukeIdx(prog)
+    cands = [b for n, b in prog.bodies.items() if n.split('::')[-1] == 'insert_features']
+    if len(cands) != 1:
+        raise Inconclusive('insert_features: %d candidates' % len(cands))
+    entry = cands[0]
+    params = {n: int(p[1:]) - 1 for n, p in entry.debug.items() if p.startswith('_') and p[1:].isdigit() and int(p[1:]) <= len(entry.params)}
+    need = ('into', 'features_stream', 'which_scenario', 'retries', 'sender', 'cli', 'fail_fast')
+    if any(n not in params for n in need):
+        raise Inconclusive('insert_features parameters %s' % sorted(params))
+    F = prog.tables.struct_fields('gherkin::Feature')
+    PF = {v[0]: i for i, v in enumerate(prog.tables.enum_variants('event::Cucumber<W>'))}
+    pf_fields = prog.tables.enum_variants('event::Cucumber<W>')[PF['ParsingFinished']][2]
+    n_items = (1, 2, 3) if chk.tier == 'thorough' else (1, 2)
+    obs = {}
+    bound = 'every path of insert_features polled to completion; parser stream of %s items, each Ok/Err symbolic and ready after 0..1 extra polls; fail_fast symbolic; rules per feature 0..2' % (n_items,)
+
+    def ob(name):
+        if name not in obs:
+            obs[name] = chk.add(Obligation('%s.insert_features.%s' % (prop, name), bound))
+            obs[name].verdict = 'holds'
+        return obs[name]
+    np = [0]
+    for n in n_items:
+        for pend in itertools.product((0, 1), repeat=n):
+            ex, M = chk.new_exec(loop_bound=4 * n + 8)
+            ff = z3.Bool('fail_fast')
+            res_d = [z3.BitVec('item%d.res' % i, 64) for i in range(n)]
+            cs = [z3.BitVec('item%d.count_scenarios' % i, 64) for i in range(n)]
+            st = [z3.BitVec('item%d.count_steps' % i, 64) for i in range(n)]
+
+            def counts(which):
+                def f(ex_, info, a, dty, which=which):
+                    r = ex_.materialize(a[0])
+                    v = ex_.read_path(r.cell, r.path) if isinstance(r, Ref) else r
+                    nm = v.name if isinstance(v, Adt) else None
+                    i = int(nm[4:]) if nm and nm.startswith('feat') else None
+                    if i is None:
+                        raise Inconclusive('count_%s on %r' % (which, v))
+                    return (cs if which == 'scenarios' else st)[i]
+                return f
+            M.table['Ext::count_scenarios'] = counts('scenarios')
+            M.table['Ext::count_steps'] = counts('steps')
+
+            def insert_rec(ex_, info, a, dty, M=M):
+                f = ex_.materialize(a[1])
+                M.log(ex_, 'insert', feature=f.name if isinstance(f, Adt) else repr(f))
+                return M.ready_future(('insert',), pending=ex_.env.get('insert_pending', 0))
+            M.table['Features::insert'] = insert_rec
+
+            def finish_rec(ex_, info, a, dty, M=M):
+                M.log(ex_, 'finish')
+                return UNIT
+            M.table['Features::finish'] = finish_rec
+
+            def run(ex_, n=n, pend=pend, M=M):
+                ex_.env['insert_pending'] = 1 if sum(pend) else 0
+                for d in res_d:
+                    ex_.add(z3.ULT(d, bv(2)))
+                for v in cs + st:
+                    ex_.add(z3.ULT(v, bv(1 << 60)))
+                items = []
+                for i in range(n):
+                    rules = Obj('vec', items=tuple(Lazy('gherkin::Rule', 'feat%d.rule%d' % (i, j)) for j in range(i % 3)), ty='Vec<Rule>')
+                    feat = Adt('gherkin::Feature', {(None, F.index('rules')): rules}, None, 'feat%d' % i)
+                    item = Adt('Result<gherkin::Feature, parser::Error>', {(0, 0): feat, (1, 0): Lazy('parser::Error', 'err%d' % i)}, res_d[i])
+                    items.append((pend[i], item))
+                args = [None] * len(entry.params)
+                args[params['into']] = Lazy('runner::basic::Features', 'into')
+                args[params['features_stream']] = M.pstream(items)
+                args[params['which_scenario']] = Lazy('F', 'which')
+                args[params['retries']] = Lazy('RetryOptionsFn', 'retries')
+                args[params['sender']] = Lazy('UnboundedSender', 'sender')
+                args[params['cli']] = Lazy('runner::basic::Cli', 'cli')
+                args[params['fail_fast']] = ff
+                co = ex_.call_body(entry, args)
+                polls, _ = poll_to_completion(ex_, M, co, 4 * n + 6)
+                return {'log': list(ex_.env.get('log', [])), 'polls': polls}
+
+            def on_end(ex_, rec, n=n, pend=pend, M=M):
+                kind, res, pc, dec = rec
+                np[0] += 1
+                if kind != 'ok':
+                    o = ob('terminates')
+                    o.verdict = 'inconclusive' if kind in ('unreachable',) else 'violated'
+                    if kind == 'loopbound':
+                        o.detail = 'not Ready after the stream ended: %s' % (res,)
+                    else:
+                        o.detail = '%s: %s' % (kind, res)
+                    return
+                log = res['log']
+                # which items must have been consumed: computed for every value of fail_fast the path allows
+                ff_vals = [v for v in (True, False) if ex_.check(ff if v else z3.Not(ff))]
+                errs = []
+                for i in range(n):
+                    e_t, e_f = ex_.check(res_d[i] == bv(1)), ex_.check(res_d[i] != bv(1))
+                    errs.append(None if (e_t and e_f) else e_t)
+                plans = []
+                for fv in ff_vals:
+                    consumed, stop = [], False
+                    for i in range(n):
+                        if stop:
+                            break
+                        if errs[i] is None:
+                            consumed = None      # item never looked at: only fine if it is beyond the stop point
+                            break
+                        consumed.append((i, errs[i]))
+                        if errs[i] and fv:
+                            stop = True
+                    plans.append((consumed, stop))
+                if any(p[0] is None for p in plans) or any(p != plans[0] for p in plans):
+                    o = ob('fail-fast-stops-ingesting-after-the-first-error')
+                    o.paths += 1
+                    o.verdict = 'violated'
+                    o.detail = 'behaviour does not depend on fail_fast / on an item where it must (plans %s)' % (plans,)
+                    o.model = {'items': n, 'pending': list(pend), 'fail_fast_values_on_path': ff_vals, 'item_is_error': errs,
+                               'inserted': [e['feature'] for e in log if e['kind'] == 'insert'], 'sent': len([e for e in log if e['kind'] == 'sent'])}
+                    return
+                consumed, stop = plans[0]
+                sent = [e for e in log if e['kind'] == 'sent']
+                inserts = [e['feature'] for e in log if e['kind'] == 'insert']
+                o = ob('every-consumed-feature-inserted-in-order')
+                o.paths += 1
+                want_ins = ['feat%d' % i for i, e in consumed if not e]
+                if inserts != want_ins:
+                    o.verdict = 'violated'
+                    o.detail = 'inserted %s, consumed features %s' % (inserts, want_ins)
+                    o.model = {'items': n, 'pending': list(pend), 'inserted': inserts, 'expected': want_ins}
+                o = ob('errors-forwarded-in-order-then-one-ParsingFinished-last')
+                o.paths += 1
+                want_errs = ['err%d' % i for i, e in consumed if e]
+                got_errs = []
+                okshape = len(sent) == len(want_errs) + 1
+                pfv = None
+                for k, e in enumerate(sent):
+                    v = ex_.materialize(e['value'])
+                    d = z3.simplify(M.discr(ex_, v)).as_long()
+                    if d == 1:
+                        p = ex_.field_of(v, 1, 0, 'parser::Error')
+                        got_errs.append(p.name if isinstance(p, Lazy) else repr(p))
+                        okshape = okshape and k < len(sent) - 1
+                    else:
+                        evv = ex_.materialize(ex_.field_of(v, 0, 0, 'event::Event<C>'))
+                        cu = ex_.materialize(ex_.field_of(evv, None, ix.EventValue, 'event::Cucumber<W>'))
+                        okshape = okshape and k == len(sent) - 1 and z3.simplify(M.discr(ex_, cu)).as_long() == PF['ParsingFinished']
+                        pfv = cu
+                if not okshape or got_errs != want_errs:
+                    o.verdict = 'violated'
+                    o.detail = 'sent %d items, errors %s; expected errors %s then ParsingFinished' % (len(sent), got_errs, want_errs)
+                    o.model = {'items': n, 'sent': len(sent), 'errors': got_errs, 'expected_errors': want_errs}
+                    return
+                if pfv is not None:
+                    get = lambda nm: ex_.materialize(ex_.field_of(pfv, PF['ParsingFinished'], pf_fields.index(nm), 'usize'), 'usize')  # noqa
+                    oks = [i for i, e in consumed if not e]
+                    want = {'features': bv(len(oks)), 'rules': bv(sum(i % 3 for i in oks)),
+                            'scenarios': sum([cs[i] for i in oks], bv(0)), 'steps': sum([st[i] for i in oks], bv(0)),
+                            'parser_errors': bv(len(want_errs))}
+                    claim = z3.And(*[get(k) == v for k, v in want.items()])
+                    o2 = ob('ParsingFinished-counters-equal-what-was-received')
+                    o2.paths += 1
+                    o2.queries += 1
+                    if ex_.check(z3.Not(claim)):
+                        o2.verdict = 'violated'
+                        m = ex_.solver.model()
+                        o2.model = {k: str(m.eval(get(k), model_completion=True)) for k in want}
+                        o2.model['consumed'] = consumed
+                        o2.detail = 'ParsingFinished counters differ from the items consumed'
+                o3 = ob('finish-called-once-at-the-end')
+                o3.paths += 1
+                fin = [k for k, e in enumerate(log) if e['kind'] == 'finish']
+                if len(fin) != 1 or any(e['kind'] in ('sent', 'insert') for e in log[fin[0]:]):
+                    o3.verdict = 'violated'
+                    o3.detail = 'Features::finish() calls: %d' % len(fin)
+                o4 = ob('fail-fast-stops-ingesting-after-the-first-error')
+                o4.paths += 1
+                polled = len([e for e in log if e['kind'] == 'stream_polled'])
+                # items after the stop point must not have been polled for: polls <= sum over consumed of (pending+1) (+1 for the end)
+                maxpolls = sum(pend[i] + 1 for i, _ in consumed) + (0 if stop else 1)
+                if polled > maxpolls:
+                    o4.verdict = 'violated'
+                    o4.detail = 'parser stream polled %d times, at most %d expected' % (polled, maxpolls)
+            ex.explore(run, on_end)
+    bad = [o for o in obs.values() if o.verdict == 'violated']
+    if bad:
+        confirm(chk, bad, prop)
+    w = chk.add(Obligation('%s.insert_features.witness' % prop, 'exploration'))
+    w.kind = 'witness'
+    w.verdict = 'witness-ok' if np[0] >= 10 and 'ParsingFinished-counters-equal-what-was-received' in obs else 'witness-missing'
+    w.detail = '%d paths' % np[0]
+    chk.assumptions.append('insert_features: Features::insert replaced by a recorder that completes after 0..1 polls; count_scenarios/count_steps uninterpreted per feature; the receiving end of the channel stays open')
+    return list(obs.values())
+
+
+def confirm(chk, bad, prop):
+    """Native replay through the REAL runner: parser streams mixing features and errors (eager and lazy), with and
+    without fail-fast; forwarded errors, ParsingFinished counters and the set of started features are compared
+    with the specification."""
+    import os
+    import re
+    from checks import replay
+    d = os.path.join(common.EVID, 'replay')
+    os.makedirs(d, exist_ok=True)
+    devs, fails, n = [], [], 0
+
+    def feat(i, late):
+        return ['feature late=%d' % late, '| Feature: f%d' % i, '|   Scenario: a%d' % i, '|     Given x%d' % i, '|     Given y%d' % i,
+                '|   Rule: r%d' % i, '|     Scenario: b%d' % i, '|       Given z%d' % i]
+    for layout in ('FEF', 'EFF', 'FFE', 'EEF', 'FEEF'):
+        for ff in (0, 1):
+            for late in (0,):   # lazy parser streams are exercised by C04 (they hit the idle-spin defect)
+                lines = ['builder max_concurrent=2' + (' fail_fast=1' if ff else '')]
+                for i, c in enumerate(layout):
+                    lines += feat(i, late) if c == 'F' else ['parse_error late=%d' % late]
+                name = '%s-ff%d-late%d' % (layout, ff, late)
+                path = os.path.join(d, '%s-ingest-%s.script' % (prop, name))
+                res, out = replay.run_script('\n'.join(['mode runner'] + lines) + '\n', path, timeout=60)
+                chk.replays += 1
+                n += 1
+                if res is None or res.get('timeout'):
+                    fails.append((name, out[-200:]))
+                    continue
+                evs = [ln[7:].rsplit(' t=', 1)[0] for ln in out.splitlines() if ln.startswith('LOG EV ')]
+                consumed = []
+                for i, c in enumerate(layout):
+                    consumed.append((i, c))
+                    if c == 'E' and ff:
+                        break
+                nf = len([1 for _, c in consumed if c == 'F'])
+                ne = len([1 for _, c in consumed if c == 'E'])
+                want_pf = 'parsing_finished[f=%d,r=%d,sc=%d,st=%d,err=%d]' % (nf, nf, 2 * nf, 3 * nf, ne)
+                pf = [e for e in evs if e.startswith('parsing_finished')]
+                started = sorted(set(re.findall(r'feature\[(f\d)\]:started', '\n'.join(evs))))
+                want_started = sorted('f%d' % i for i, c in consumed if c == 'F')
+                # under fail-fast a parser error also stops dispatching: started features may be fewer, never others
+                ok = pf == [want_pf] and evs.count('err') == ne and (started == want_started or (ff and ne and set(started) <= set(want_started)))
+                if not ok:
+                    devs.append(('%s: ParsingFinished %s (specification %s), errors forwarded %d (%d), features started %s (%s)' % (
+                        name, pf, want_pf, evs.count('err'), ne, started, want_started), path))
+                    chk.replay_files.append(path)
+                else:
+                    os.remove(path)
+    for o in bad:
+        if devs:
+            o.replay = devs[0][1]
+            o.detail += ' | reproduced natively through the real runner (%d of %d runs deviate): %s' % (len(devs), n, devs[0][0])
+        elif fails:
+            o.verdict = 'inconclusive'
+            o.detail += ' | native replay failed: %s' % (fails[0],)
+        else:
+            o.verdict = 'inconclusive'
+            o.detail += ' | %d native runs through the real runner follow the specification - counterexample not reproduced' % n
